@@ -281,8 +281,10 @@ template <class AMG> std::string coarse_level_singular(const AMG &a, double *max
 // (the two hierarchies are exact scaled copies of each other down to the first level where a threshold is crossed).
 template <class AMG> double rs_min_offdiag(const AMG &a, double s) {
     double m = 1e300;
-    amgcl_verif::access::for_levels(a, [&](size_t, const amgcl::backend::crs<double> *A, bool, bool, bool hasP) {
-        if (!A || !hasP) return;
+    amgcl_verif::access::for_levels(a, [&](size_t, const amgcl::backend::crs<double> *A, bool, bool, bool) {
+        // every level that keeps its matrix, also the one where coarsening STOPPED: it stops exactly when all off-diagonals are
+        // below the absolute threshold (all rows become F, empty level), and the scaled hierarchy may coarsen further there
+        if (!A) return;
         for (size_t i = 0; i < A->nrows; ++i) for (ptrdiff_t j = A->ptr[i]; j < A->ptr[i + 1]; ++j)
             if (static_cast<size_t>(A->col[j]) != i && A->val[j] != 0) m = std::min(m, std::abs(A->val[j]) * std::min(1.0, s));
     });
